@@ -281,6 +281,49 @@ impl<'a, B> Batcher<'a, B> {
     }
 }
 
+/// Read-only view of the private state for the verification harness (feature `ipa-verif`,
+/// test builds only). Format: `x:<first_batch>:<slot>/<slot>…` with `N` for an empty slot and
+/// `<pending_count>.<bitmap len>.<set bit indices joined by '+'>` otherwise.
+#[cfg(all(test, feature = "ipa-verif"))]
+impl<B> Batcher<'_, B> {
+    pub(super) fn ipa_verif_state(&self, payload: impl Fn(&B) -> String) -> String {
+        let slots = self
+            .batches
+            .iter()
+            .map(|s| match s {
+                None => "N".to_string(),
+                Some(b) => {
+                    let set = b
+                        .pending_records
+                        .iter_ones()
+                        .map(|i| i.to_string())
+                        .collect::<Vec<_>>();
+                    format!(
+                        "{}.{}.{}.{}",
+                        payload(&b.batch),
+                        b.pending_count,
+                        b.pending_records.len(),
+                        if set.is_empty() {
+                            "-".to_string()
+                        } else {
+                            set.join("+")
+                        }
+                    )
+                }
+            })
+            .collect::<Vec<_>>();
+        format!(
+            "x:{}:{}",
+            self.first_batch,
+            if slots.is_empty() {
+                "-".to_string()
+            } else {
+                slots.join("/")
+            }
+        )
+    }
+}
+
 #[cfg(all(test, unit_test))]
 mod tests {
     use std::{future::ready, pin::pin};
